@@ -41,6 +41,16 @@ Example C05_date_arithmetic :
   to_f64 (VDate 1000000000) = Ok (f_of_Z 1000).
 Proof. vm_compute. repeat split. Qed.
 
+(** a duration is scaled by any integer, on its nanosecond count (fixes c8b2097, 0992468); division truncates *)
+Example C05_duration_scaling :
+  vmul (VDur 1) (VInt 3000000000) = Ok (VDur 3000000000) /\
+  vmul (VInt 3000000000) (VDur 1) = Ok (VDur 3000000000) /\
+  vdiv (VDur 3600000000000) (VInt 3600000000000) = Ok (VDur 1) /\
+  vdiv (VDur 1500000000) (VInt (-7)) = Ok (VDur (-214285714)) /\
+  vdiv (VDur 3600000000000) (VInt 0) = Err /\
+  vmul (VDur 3600000000000) (VInt 9223372036854775807) = Err.
+Proof. vm_compute. repeat split. Qed.
+
 Theorem C05_mixed_add : forall z f g,
   vadd (VInt z) (VFloat f) = Ok (from_float (fadd (f_of_Z z) f)) /\
   vadd (VFloat f) (VFloat g) = Ok (from_float (fadd f g)) /\
